@@ -9,6 +9,7 @@ import (
 	"log"
 	"strings"
 	"sync"
+	"sync/atomic"
 	"testing"
 	"time"
 
@@ -27,7 +28,7 @@ func TestMain(m *testing.M) {
 	log.SetOutput(io.Discard)
 	kit.Main(m, "C19", "exploration",
 		"request sequences over {get-session valid (2 partitions), get-session with empty id, encrypt (empty / non-empty data), decrypt genuine (a record produced earlier on this or another stream for the partition), decrypt foreign-partition, decrypt corrupt, decrypt with empty record, empty request (no oneof), end of stream}: "+
-			"EXHAUSTIVE up to length 4 (thorough 5) through an in-memory AppEncryption_SessionServer against a sidecar built with the real NewAppEncryption (memory metastore, static KMS), rapid sequences up to length 40 on 1-8 concurrent streams sharing one AppEncryption, 2-16 streams whose get-sessions hit a FRESHLY built NewAppEncryption in parallel (every record they are given must decrypt on a later stream of its partition and on no other), "+
+			"EXHAUSTIVE up to length 4 (thorough 5) through an in-memory AppEncryption_SessionServer against a sidecar built with the real NewAppEncryption (memory metastore, static KMS), rapid sequences up to length 40 on 1-8 concurrent streams sharing one AppEncryption, 2-16 streams whose get-sessions hit a FRESHLY built NewAppEncryption in parallel (every record they are given must decrypt on a later stream of its partition and on no other), a rapid state machine of streams opened / used / left open / ended among short complete streams of the same and other partitions with the sidecar's session cache off or on with 1-4 slots (a stream that completed get-session keeps round-tripping until the client ends it), 4-16 goroutines each running 5-30 complete streams for partitions the process has never seen, "+
 			"a second service built around a harness-owned SessionFactory for the SDK differential (records produced by the stream decrypt through an SDK session and vice versa), a sample through real gRPC over bufconn, and a native fuzz target (thorough). "+
 			"Oracle: a three-state protocol model (no session / get-session rejected / session open): exactly one Send per received request, in order; encrypt/decrypt before a successful get-session and a second get-session get error responses; with a session open encrypt returns a record that decrypts to the data, decrypt of a genuine record returns its payload, foreign / corrupt / empty records get error responses; Session returns nil at end of stream without panicking in every state. "+
 			"One evaluation = one sequence on one stream. Non-trivial = contains a rejected or repeated get-session or a decrypt of a non-genuine record followed by at least one more event; enumerated sequences are distinct by construction",
@@ -708,5 +709,244 @@ func TestFreshServerParallelStart(t *testing.T) {
 			return map[string]any{"fresh_server_parallel_start_streams": streams, "partitions": parts, "session_cache": opts.EnableSessionCaching}
 		})
 		kit.Rec.Label("fresh-server-parallel-start")
+	})
+}
+
+// ---- streams that stay open while others come and go ------------------------------------------
+
+// liveStream is one interactive stream against the service.
+type liveStream struct {
+	st   *memStream
+	done chan string
+	part string
+	recs []genuine
+}
+
+func openStream(app *server.AppEncryption, part string) (*liveStream, string) {
+	ls := &liveStream{st: &memStream{ctx: ctx, feed: make(chan *pb.SessionRequest), out: make(chan *pb.SessionResponse, 4)}, done: make(chan string, 1), part: part}
+	go func() {
+		defer func() {
+			if x := recover(); x != nil {
+				ls.done <- fmt.Sprintf("the stream handler panicked: %v", x)
+			}
+		}()
+		if err := app.Session(ls.st); err != nil {
+			ls.done <- "Session returned an error: " + err.Error()
+			return
+		}
+		ls.done <- ""
+	}()
+	resp, msg := ls.ask(&pb.SessionRequest{Request: &pb.SessionRequest_GetSession{GetSession: &pb.GetSession{PartitionId: part}}})
+	if msg != "" {
+		return nil, msg
+	}
+	if isErr(resp) {
+		return nil, fmt.Sprintf("a valid get-session for %q was answered with %v", part, resp)
+	}
+	return ls, ""
+}
+
+func (ls *liveStream) ask(req *pb.SessionRequest) (*pb.SessionResponse, string) {
+	select {
+	case ls.st.feed <- req:
+	case msg := <-ls.done:
+		return nil, "the stream ended before the client closed it: " + msg
+	case <-time.After(20 * time.Second):
+		return nil, "no response within 20s (request not even received)"
+	}
+	select {
+	case r := <-ls.st.out:
+		return r, ""
+	case msg := <-ls.done:
+		return nil, "the stream ended without answering: " + msg
+	case <-time.After(20 * time.Second):
+		return nil, "no response within 20s"
+	}
+}
+
+// roundTrip encrypts a payload on the stream and decrypts one of the stream's own records.
+func (ls *liveStream) roundTrip(tag string) string {
+	payload := []byte("payload " + tag)
+	resp, msg := ls.ask(&pb.SessionRequest{Request: &pb.SessionRequest_Encrypt{Encrypt: &pb.Encrypt{Data: payload}}})
+	if msg != "" {
+		return "encrypt: " + msg
+	}
+	if resp.GetEncryptResponse() == nil {
+		return fmt.Sprintf("encrypt on an open stream of %q was answered with %v", ls.part, resp)
+	}
+	ls.recs = append(ls.recs, genuine{cloneDRR(resp.GetEncryptResponse().GetDataRowRecord()), payload})
+	g := ls.recs[len(ls.recs)/2]
+	resp, msg = ls.ask(&pb.SessionRequest{Request: &pb.SessionRequest_Decrypt{Decrypt: &pb.Decrypt{DataRowRecord: cloneDRR(g.drr)}}})
+	if msg != "" {
+		return "decrypt: " + msg
+	}
+	if d := resp.GetDecryptResponse(); d == nil || !bytes.Equal(d.GetData(), g.payload) {
+		return fmt.Sprintf("decrypt of a record this very stream produced for %q was answered with %v", ls.part, resp)
+	}
+	return ""
+}
+
+func (ls *liveStream) end() string {
+	close(ls.st.feed)
+	select {
+	case msg := <-ls.done:
+		return msg
+	case <-time.After(20 * time.Second):
+		return "Session did not return after end of stream"
+	}
+}
+
+// TestOpenStreamsAmongOthers: streams are opened, used, left open, ended, while other streams of
+// the same and of other partitions come and go - with and without the sidecar's session cache
+// (small, so that sessions get evicted while streams still use them). A stream that completed
+// get-session keeps behaving like an SDK session of its partition until the client ends it.
+func TestOpenStreamsAmongOthers(t *testing.T) {
+	kit.Steps(30)
+	kit.Check(t, 150, 6000, func(t *rapid.T) {
+		opts := &server.Options{ServiceName: "svc", ProductID: "prod", Metastore: "memory", KMS: "static", ExpireAfter: 24 * time.Hour, CheckInterval: time.Hour}
+		if rapid.IntRange(0, 3).Draw(t, "sessionCache") > 0 {
+			opts.EnableSessionCaching, opts.SessionCacheMaxSize, opts.SessionCacheDuration = true, rapid.IntRange(1, 4).Draw(t, "cacheSize"), time.Hour
+		}
+		app := server.NewAppEncryption(opts)
+		nparts := rapid.IntRange(2, 7).Draw(t, "partitions")
+		var open []*liveStream
+		var trace []string
+		n := 0
+		bad := func(msg string) {
+			full := fmt.Sprintf("C19 violated [NewAppEncryption, session cache %v/%d, streams kept open among others]: %s\n  history: %s", opts.EnableSessionCaching, opts.SessionCacheMaxSize, msg, strings.Join(trace, "; "))
+			if strings.Contains(msg, "no response within") || strings.Contains(msg, "did not return") {
+				kit.Abort(full)
+			}
+			kit.Rec.Violation(msg)
+			t.Fatalf("%s", full)
+		}
+		usedAfterOthers := false
+		t.Repeat(map[string]func(*rapid.T){
+			"open": func(t *rapid.T) {
+				if len(open) >= 5 {
+					t.Skip("enough open streams")
+				}
+				part := fmt.Sprintf("partition-%d", rapid.IntRange(0, nparts-1).Draw(t, "part"))
+				trace = append(trace, "open "+part)
+				ls, msg := openStream(app, part)
+				if msg != "" {
+					bad(msg)
+				}
+				open = append(open, ls)
+			},
+			"use": func(t *rapid.T) {
+				if len(open) == 0 {
+					t.Skip("no open stream")
+				}
+				ls := open[rapid.IntRange(0, len(open)-1).Draw(t, "stream")]
+				n++
+				trace = append(trace, "use "+ls.part)
+				if msg := ls.roundTrip(fmt.Sprint(n)); msg != "" {
+					bad(fmt.Sprintf("open stream of %q: %s", ls.part, msg))
+				}
+				if len(trace) > 3 {
+					usedAfterOthers = true
+				}
+			},
+			"short": func(t *rapid.T) {
+				// a complete stream: get-session, optionally one round trip, end of stream
+				part := fmt.Sprintf("partition-%d", rapid.IntRange(0, nparts-1).Draw(t, "part"))
+				use := rapid.Bool().Draw(t, "use")
+				trace = append(trace, fmt.Sprintf("short %s use=%v", part, use))
+				ls, msg := openStream(app, part)
+				if msg != "" {
+					bad(msg)
+				}
+				if use {
+					n++
+					if msg := ls.roundTrip(fmt.Sprint(n)); msg != "" {
+						bad(fmt.Sprintf("short stream of %q: %s", part, msg))
+					}
+				}
+				if msg := ls.end(); msg != "" {
+					bad(fmt.Sprintf("short stream of %q: %s", part, msg))
+				}
+			},
+			"end": func(t *rapid.T) {
+				if len(open) == 0 {
+					t.Skip("no open stream")
+				}
+				i := rapid.IntRange(0, len(open)-1).Draw(t, "stream")
+				trace = append(trace, "end "+open[i].part)
+				if msg := open[i].end(); msg != "" {
+					bad(fmt.Sprintf("stream of %q: %s", open[i].part, msg))
+				}
+				open = append(open[:i], open[i+1:]...)
+			},
+		})
+		for _, ls := range open {
+			n++
+			if msg := ls.roundTrip(fmt.Sprint(n)); msg != "" {
+				bad(fmt.Sprintf("open stream of %q (final use): %s", ls.part, msg))
+			}
+			if msg := ls.end(); msg != "" {
+				bad(fmt.Sprintf("stream of %q: %s", ls.part, msg))
+			}
+		}
+		kit.Rec.Case("among|"+strings.Join(trace, ";"), usedAfterOthers, func() any {
+			return map[string]any{"session_cache": opts.EnableSessionCaching, "session_cache_size": opts.SessionCacheMaxSize, "history": trace}
+		})
+		kit.Rec.Label("open-streams-among-others")
+	})
+}
+
+// TestManyStreamsFreshPartitions: many streams at once, each for a partition the process has
+// never seen (get-session, encrypt, decrypt of its own record, end of stream): every request is
+// answered and the process survives - including whatever per-partition bookkeeping the sidecar
+// does on first use.
+func TestManyStreamsFreshPartitions(t *testing.T) {
+	kit.Check(t, 12, 400, func(t *rapid.T) {
+		opts := &server.Options{ServiceName: "svc", ProductID: "prod", Metastore: "memory", KMS: "static", ExpireAfter: 24 * time.Hour, CheckInterval: time.Hour}
+		if rapid.Bool().Draw(t, "sessionCache") {
+			opts.EnableSessionCaching, opts.SessionCacheMaxSize, opts.SessionCacheDuration = true, 8, time.Hour
+		}
+		app := server.NewAppEncryption(opts)
+		workers := rapid.IntRange(4, 16).Draw(t, "workers")
+		perWorker := rapid.IntRange(5, 30).Draw(t, "streamsPerWorker")
+		salt := rapid.IntRange(0, 1<<20).Draw(t, "salt")
+		var first atomic.Value
+		var wg sync.WaitGroup
+		start := make(chan struct{})
+		for w := 0; w < workers; w++ {
+			wg.Add(1)
+			go func(w int) {
+				defer wg.Done()
+				<-start
+				for i := 0; i < perWorker && first.Load() == nil; i++ {
+					part := fmt.Sprintf("fresh-%d-%d-%d", salt, w, i)
+					ls, msg := openStream(app, part)
+					if msg == "" {
+						msg = ls.roundTrip(part)
+					}
+					if msg == "" {
+						msg = ls.end()
+					}
+					if msg != "" {
+						first.CompareAndSwap(nil, fmt.Sprintf("stream for new partition %q: %s", part, msg))
+						return
+					}
+				}
+			}(w)
+		}
+		close(start)
+		wg.Wait()
+		if v := first.Load(); v != nil {
+			msg := v.(string)
+			full := fmt.Sprintf("C19 violated [NewAppEncryption, %d goroutines x %d streams for never-seen partitions, session cache %v]: %s", workers, perWorker, opts.EnableSessionCaching, msg)
+			if strings.Contains(msg, "no response within") || strings.Contains(msg, "did not return") {
+				kit.Abort(full)
+			}
+			kit.Rec.Violation(msg)
+			t.Fatalf("%s", full)
+		}
+		kit.Rec.Case(fmt.Sprintf("fresh|%d|%d|%v", workers, perWorker, opts.EnableSessionCaching), true, func() any {
+			return map[string]any{"concurrent_goroutines": workers, "streams_each_for_a_new_partition": perWorker, "session_cache": opts.EnableSessionCaching}
+		})
+		kit.Rec.Label("many-streams-fresh-partitions")
 	})
 }
